@@ -117,6 +117,7 @@ static inline void wv_mutex_unlock(wv_mutex *m)
 }
 void wv_cv_wait(wv_cv *cv, wv_mutex *m);
 void wv_cv_notify_all(wv_cv *cv);
+void wv_cv_notify_one(wv_cv *cv);
 void wv_thread_join(wv_thread *t);
 
 /* <ctype.h> in the C locale (the program never calls setlocale): glibc's isalnum(c) expands to a table lookup through
